@@ -433,6 +433,7 @@ def instances_C01(tier):
                     out.append(inst_permop(n, perm, inv, "scalar"))
     out.append(inst_swapop("list"))
     out.append(inst_swapop("scalar"))
+    out += float_form_instances("C01")
     return out
 
 
@@ -456,6 +457,7 @@ def instances_C02(tier):
                 out.append(inst_ptrace(n, S, "int", "list"))
             if n <= 3:
                 out.append(inst_ptrace(n, S, "list", "array"))
+    out += float_form_instances("C02")
     return out
 
 
@@ -477,6 +479,7 @@ def instances_C03(tier):
                         out.append(inst_ptranspose(n, S, "array", dimform))
     out.append(inst_realign("list"))
     out.append(inst_realign("2row"))
+    out += float_form_instances("C03")
     return out
 
 
@@ -627,4 +630,46 @@ def crosscheck_cases(S, seed=0, count=24):
             out.append(dict(clause="e1.crosscheck", params=params, input_class="crosscheck/%s" % fn, function=fn))
         except Exception as e:  # engine limitation on a concrete instance: recorded, not a failure of the code
             out.append(dict(clause="e1.crosscheck", params=dict(fn=fn, engine_error="%s: %s" % (type(e).__name__, str(e)[:120])), input_class="crosscheck/%s" % fn, function=fn))
+    return out
+
+
+# ---------------------------------------------------------------------------------------------
+# scalar / omitted dimension arguments (proved under S-float-dims: np.round(np.sqrt(.)), x ** (1/n), x / d, int(.) exact on integral values)
+# ---------------------------------------------------------------------------------------------
+def inst_custom(fn, label, mk, spec, axes, atoms_, replay):
+    def run(S):
+        recs, ms = verify_instance(fn, label, {fn: S.fn[fn]}, _contracts_for(fn), mk, spec, axes, atoms=atoms_)
+        return recs, ms, replay
+
+    return label, run
+
+
+def float_form_instances(prop):
+    d, e = atoms("d", 2)
+    out = []
+    if prop == "C01":
+        out.append(inst_custom("swap", "swap dim omitted (d x d), all d", lambda: ([X_of((d * d, d * d))], {}, [sp.Ge(d, 2)]), lambda a, k: IL.spec_swap(a[0], [1, 2], [d, d], [d, d], False), lambda a, k: [[d, d], [d, d]], [d],
+                               [dict(clause="swap.index", function="swap", input_class="swap/omitted", params=dict(sys=[1, 2], row_only=False, dimform="omitted", rdims=[3, 3], cdims=[3, 3]))]))
+        out.append(inst_custom("swap", "swap dim = int d on (d e) x (d e), all d, e", lambda: ([X_of((d * e, d * e)), [1, 2], d], {}, [sp.Ge(d, 2), sp.Ge(e, 2)]), lambda a, k: IL.spec_swap(a[0], [1, 2], [d, e], [d, e], False), lambda a, k: [[e, d], [e, d]], [d, e],
+                               [dict(clause="swap.index", function="swap", input_class="swap/scalar", params=dict(sys=[1, 2], row_only=False, dimform="scalar", rdims=[2, 3], cdims=[2, 3]))]))
+        for n, perm in ((2, (1, 0)), (3, (1, 2, 0)), (3, (2, 0, 1)), (4, (1, 2, 3, 0))):
+            out.append(inst_custom("permute_systems", "permute_systems vector dim omitted n=%d perm=%s, all d" % (n, list(perm)), (lambda n=n, perm=perm: ([X_of((d**n,)), list(perm)], {}, [sp.Ge(d, 2)])), (lambda a, k, n=n, perm=perm: IL.spec_permute_systems(a[0], perm, [d] * n, [d] * n, False, False)), (lambda a, k, n=n: [[d] * n]), [d],
+                                   [dict(clause="ps.float_prelude", function="permute_systems", input_class="permute_systems/dim-omitted/d=3,n=%d" % n, params=dict(d=3, n=n, perm=list(perm)))]))
+            if n <= 3:
+                out.append(inst_custom("permute_systems", "permute_systems matrix dim omitted n=%d perm=%s, all d" % (n, list(perm)), (lambda n=n, perm=perm: ([X_of((d**n, d**n)), list(perm)], {}, [sp.Ge(d, 2)])), (lambda a, k, n=n, perm=perm: IL.spec_permute_systems(a[0], perm, [d] * n, [d] * n, False, False)), (lambda a, k, n=n: [[d] * n, [d] * n]), [d],
+                                       [dict(clause="ps.float_prelude", function="permute_systems", input_class="permute_systems/dim-omitted/d=2,n=%d" % n, params=dict(d=2, n=n, perm=list(perm)))]))
+    if prop == "C02":
+        for Sx in ([0], [1]):
+            out.append(inst_custom("partial_trace", "partial_trace dim = int d, sys=%s, all d, e" % Sx, (lambda Sx=Sx: ([X_of((d * e, d * e)), list(Sx), d], {}, [sp.Ge(d, 1), sp.Ge(e, 1), sp.Ge(d * e, 2)])), (lambda a, k, Sx=Sx: IL.spec_partial_trace(a[0], Sx, [d, e])), (lambda a, k, Sx=Sx: [[d if Sx == [1] else e]] * 2), [d, e],
+                                   [dict(clause="ptrace.index", function="partial_trace", input_class="partial_trace/scalar-dim", params=dict(sys=list(Sx), dims=[2, 3], sysform="list", dimform="scalar"))]))
+        out.append(inst_custom("partial_trace", "partial_trace all arguments omitted (d x d, second system traced), all d", lambda: ([X_of((d * d, d * d))], {}, [sp.Ge(d, 2)]), lambda a, k: IL.spec_partial_trace(a[0], [1], [d, d]), lambda a, k: [[d], [d]], [d],
+                               [dict(clause="ptrace.index", function="partial_trace", input_class="partial_trace/omitted", params=dict(sys=[1], dims=[3, 3], sysform="list", dimform="omitted", sys_omitted=True))]))
+    if prop == "C03":
+        for Sx in ([0], [1]):
+            out.append(inst_custom("partial_transpose", "partial_transpose dim omitted sys=%s (d x d), all d" % Sx, (lambda Sx=Sx: ([X_of((d * d, d * d)), list(Sx)], {}, [sp.Ge(d, 2)])), (lambda a, k, Sx=Sx: IL.spec_partial_transpose(a[0], Sx, [d, d], [d, d])), (lambda a, k: [[d, d], [d, d]]), [d],
+                                   [dict(clause="ptranspose.index", function="partial_transpose", input_class="partial_transpose/omitted", params=dict(sys=list(Sx), rdims=[3, 3], cdims=[3, 3], sysform="list", dimform="omitted"))]))
+        out.append(inst_custom("realignment", "realignment dim omitted (d x d), all d", lambda: ([X_of((d * d, d * d))], {}, [sp.Ge(d, 2)]), lambda a, k: IL.spec_realignment(a[0], [d, d], [d, d]), lambda a, k: [[d, d], [d, d]], [d],
+                               [dict(clause="realign.index", function="realignment", input_class="realignment/omitted", params=dict(rdims=[3, 3], cdims=[3, 3], dimform="omitted"))]))
+        out.append(inst_custom("realignment", "realignment dim = int d, all d, e", lambda: ([X_of((d * e, d * e)), d], {}, [sp.Ge(d, 2), sp.Ge(e, 2)]), lambda a, k: IL.spec_realignment(a[0], [d, e], [d, e]), lambda a, k: [[d, d], [e, e]], [d, e],
+                               [dict(clause="realign.index", function="realignment", input_class="realignment/scalar", params=dict(rdims=[2, 3], cdims=[2, 3], dimform="scalar"))]))
     return out
